@@ -58,7 +58,9 @@ theorem valid_wire {p : Packet} (h : p.valid = true) : p.wireSize ≤ maxPacketS
     have h3 : Tw.Gen.Conn.P6.connlessMax + 6 ≤ 1400 := by decide
     rw [maxPacketSize_eq]
     simp only [Packet.wireSize, h1, h2]; omega
-  | control ack t c => simpa [Packet.valid] using h
+  | control ack t c =>
+    simp only [Packet.valid, Bool.and_eq_true, decide_eq_true_eq] at h
+    exact h.1
   | chunks ack t rr n cs =>
     simp only [Packet.valid, Bool.and_eq_true, decide_eq_true_eq] at h
     exact h.1.1.1.1
@@ -79,19 +81,22 @@ theorem emit_flushed (t : Option Nat) {fl : List Flushed} (h : ∀ f ∈ fl, f.V
     exact ofFlushed_valid t (h f hf)
   exact ⟨emit_ok hv, hv⟩
 
-/-- a control packet other than an over-long close fits the buffer -/
+/-- a control packet whose close reason (if any) meets the API precondition is valid -/
 theorem control_valid (ack : Nat) (t : Option Nat) (ctl : Control)
-    (h : ∀ r, ctl = .close r → r.length ≤ 127) : (Packet.control ack t ctl).valid = true := by
+    (h : ∀ r, ctl = .close r → r.length ≤ 127 ∧ r.all (· != 0) = true) : (Packet.control ack t ctl).valid = true := by
   have h1 : Tw.Gen.Conn.P6.HEADER_SIZE = 3 := rfl
   have h2 : Tw.Gen.Conn.P6.TOKEN_SIZE = 4 := rfl
-  simp only [Packet.valid, decide_eq_true_eq]
-  rw [maxPacketSize_eq]
+  have h3 : Tw.Gen.Conn.P6.CTRLMSG_CLOSE_REASON_LENGTH = 127 := rfl
   cases ctl with
-  | close r => have := h r rfl; cases t <;> simp [Packet.wireSize, h1, h2] <;> omega
-  | keepAlive => cases t <;> simp [Packet.wireSize, h1, h2]
-  | connect => cases t <;> simp [Packet.wireSize, h1, h2]
-  | connectAccept => cases t <;> simp [Packet.wireSize, h1, h2]
-  | accept => cases t <;> simp [Packet.wireSize, h1, h2]
+  | close r =>
+    obtain ⟨ha, hb⟩ := h r rfl
+    simp only [Packet.valid, Bool.and_eq_true, decide_eq_true_eq, maxPacketSize_eq, h3]
+    refine ⟨?_, ha, hb⟩
+    cases t <;> simp [Packet.wireSize, h1, h2] <;> omega
+  | keepAlive => cases t <;> simp [Packet.valid, maxPacketSize_eq, Packet.wireSize, h1, h2]
+  | connect => cases t <;> simp [Packet.valid, maxPacketSize_eq, Packet.wireSize, h1, h2]
+  | connectAccept => cases t <;> simp [Packet.valid, maxPacketSize_eq, Packet.wireSize, h1, h2]
+  | accept => cases t <;> simp [Packet.valid, maxPacketSize_eq, Packet.wireSize, h1, h2]
 
 theorem controlPacket_ok (st : State) (ctl : Control) (hs : st ≠ .disconnected) :
     ∃ ack t, controlPacket st ctl = .ok (.control ack t ctl) := by
@@ -103,7 +108,7 @@ theorem controlPacket_ok (st : State) (ctl : Control) (hs : st ≠ .disconnected
   | online t o => exact ⟨_, _, rfl⟩
 
 theorem sendControl_ok (st : State) (ctl : Control) (hs : st ≠ .disconnected)
-    (h : ∀ r, ctl = .close r → r.length ≤ 127) :
+    (h : ∀ r, ctl = .close r → r.length ≤ 127 ∧ r.all (· != 0) = true) :
     ∃ p, sendControl st ctl = .ok [p] ∧ p.valid = true := by
   obtain ⟨ack, t, he⟩ := controlPacket_ok st ctl hs
   refine ⟨.control ack t ctl, ?_, control_valid ack t ctl h⟩
@@ -156,7 +161,7 @@ theorem disconnect_good (env : Env) {c : Conn} (r : Bytes) (hp : permitted env c
   simp only [permitted, Bool.and_eq_true, bne_iff_ne, ne_eq, decide_eq_true_eq] at hp
   obtain ⟨⟨hd, hnul⟩, hlen⟩ := hp
   have hlen' : r.length ≤ 127 := hlen
-  obtain ⟨p, he, hv⟩ := sendControl_ok st (.close r) hd (by intro r' hr; injection hr with hr; subst hr; exact hlen')
+  obtain ⟨p, he, hv⟩ := sendControl_ok st (.close r) hd (by intro r' hr; injection hr with hr; subst hr; exact ⟨hlen', hnul⟩)
   have hany : r.any (· == 0) = false := by
     rw [List.any_eq_false]
     intro x hx
